@@ -192,9 +192,15 @@ var bodyLenGen = rapid.OneOf(
 // big bodies are rare: at most a few MiB per case
 var bigLenGen = rapid.SampledFrom([]int{c22MaxBody, c22MaxBody - 1, c22MaxBody - 4, c22MaxBody / 2, 300000})
 
+// oneIn is true with probability 1/n. rapid's integer generators favour small
+// values and boundaries, so rare events are drawn from a uniform byte stream.
+func oneIn(t *rapid.T, label string, n int) bool {
+	return int(binary.LittleEndian.Uint32(pbt.DrawBytes(t, label, 4))%uint32(n)) == 0
+}
+
 func genBody(t *rapid.T, allowBig *int) []byte {
 	n := bodyLenGen.Draw(t, "bodyLen")
-	if *allowBig > 0 && rapid.IntRange(0, 39).Draw(t, "big") == 0 {
+	if *allowBig > 0 && oneIn(t, "big", 100) {
 		*allowBig--
 		n = bigLenGen.Draw(t, "bigLen")
 	}
@@ -342,8 +348,9 @@ func TestC22(t *testing.T) {
 			// sizes: small mostly; sometimes within 2 bytes of the limit (compressible, so cheap)
 			var data []byte
 			content := rapid.SampledFrom([]string{"random", "zeros", "pattern"}).Draw(t, "content")
-			n := rapid.OneOf(rapid.IntRange(0, 64), rapid.IntRange(0, 5000), rapid.SampledFrom([]int{0, 1, 65535, 65536, mib})).Draw(t, "n")
-			near := rapid.IntRange(0, 79).Draw(t, "nearLimit") == 0
+			n := rapid.OneOf(rapid.IntRange(0, 64), rapid.IntRange(0, 5000), rapid.SampledFrom([]int{0, 1, 65535, 65536, 300000})).Draw(t, "n")
+			// (rare: each costs ~0.3 s; TestC22GzipLimits walks the limit deterministically)
+			near := oneIn(t, "nearLimit", 300)
 			if near {
 				n = c22GzipLimit + rapid.IntRange(-2, 2).Draw(t, "delta")
 				if content == "random" {
@@ -364,7 +371,11 @@ func TestC22(t *testing.T) {
 				t.Fatalf("gzip of %d bytes: Encode: %v", n, err)
 			}
 			// ... and an independent one
-			inputs := [][]byte{enc.Buf, refGzipPacked(stdGzip(data, rapid.SampledFrom([]int{gzip.NoCompression, gzip.BestSpeed, gzip.DefaultCompression}).Draw(t, "level")))}
+			level := rapid.SampledFrom([]int{gzip.NoCompression, gzip.BestSpeed, gzip.DefaultCompression}).Draw(t, "level")
+			if n > mib {
+				level = gzip.BestSpeed
+			}
+			inputs := [][]byte{enc.Buf, refGzipPacked(stdGzip(data, level))}
 			for i, in := range inputs {
 				got, err := gzipDecode(t, in, fmt.Sprintf("gzip object of %d %s bytes (encoder %d)", n, content, i))
 				switch {
